@@ -76,6 +76,41 @@ Theorem iteration_exact : forall h a,
 Proof. exact iteration_exact_all. Qed.
 Print Assumptions iteration_exact.
 
+(* -------------------------------------------------------------- accessors return locations of the source *)
+(* operator[](i), at(i), begin()+i, data()+i all denote ONE location, arr_loc a i = cell off+i of the buffer the wrapper
+   designates.  It depends on the wrapper only: it is the same whatever the heap holds and however many further accessor
+   calls are made (accessors change nothing), so two references can be held at once; and what is read through a held
+   reference in any LATER heap h is what operator[](i) yields in h — the reference follows the source. *)
+Theorem accessor_returns_source_cell : forall a i,
+  (forall h, arr_index h a i = read_loc h (arr_loc a i)) /\
+  (forall h, i < a_len a -> arr_at h a i = ORet (read_loc h (arr_loc a i))) /\
+  (forall h, i < a_len a -> nth_error (arr_iter h a) i = Some (read_loc h (arr_loc a i))) /\
+  (forall off b, a_ptr a = Some (b, off) -> arr_loc a i = Some (b, off + i)) /\
+  (a_ptr a = None -> arr_loc a i = None).
+Proof. exact accessor_loc_lemma. Qed.
+Print Assumptions accessor_returns_source_cell.
+
+(* DataView::operator[](i) returns the location of byte i*stride of the wrapped range (not of a copy) *)
+Theorem dataview_returns_source_cell : forall d sz i,
+  (forall h, dv_index h d sz i = map (fun j => read_cell h (dv_loc d i) j) (seq 0 sz)) /\
+  (forall b off, d_ptr d = Some (b, off) -> dv_loc d i = Some (b, off + i * d_stride d)).
+Proof. exact dv_loc_lemma. Qed.
+Print Assumptions dataview_returns_source_cell.
+
+(* for a view over source container k these locations are the container's own cells ... *)
+Theorem view_location : forall st i k st1 b,
+  step_new st (FromSrc i KView k) = Some st1 -> nth_error (srcs st) k = Some (Some b) ->
+  exists a, slot_at st1 i = SView a /\ forall j, j < a_len a -> arr_loc a j = Some (b, j).
+Proof. exact view_location_lemma. Qed.
+Print Assumptions view_location.
+
+(* ... and a write to the container's element j shows through a reference held to that location *)
+Theorem held_reference_follows_source : forall st k j v st2 b,
+  step_new st (SrcWrite k j v) = Some st2 -> nth_error (srcs st) k = Some (Some b) ->
+  read_loc (heap st2) (Some (b, j)) = RVal v.
+Proof. exact held_reference_follows_source. Qed.
+Print Assumptions held_reference_follows_source.
+
 (* ----------------------------------------------------------------------------------- ownership *)
 (* An owning array (OwnedArray or FixedArray) built from source container k holds k's elements, and whatever
    happens to k afterwards — an element overwritten, the container replaced, the container destroyed — leaves
@@ -343,6 +378,15 @@ Example resize_ref_nonvacuous :
      elems st1 0 = Some (map RVal [1;2;3;2;2;2;2;2;2]%N) /\
      step_new st1 (ResizeRef 0 1 0 8) = Some st2 /\ elems st2 0 = Some [RVal 1]%N /\
      step_new st2 (ResizeRef 0 3 0 0) = Some st3 /\ elems st3 0 = Some (map RVal [1;1;1]%N).
+Proof. vm_compute. eexists. eexists. eexists. repeat split; reflexivity. Qed.
+
+(* two references held at once into a view over source 0, then a write to the source *)
+Example held_references_nonvacuous :
+  exists st1 st2 a, step_new ex_st (FromSrc 2 KView 0) = Some st1 /\ slot_at st1 2 = SView a /\
+     arr_loc a 0 = Some (0, 0) /\ arr_loc a 2 = Some (0, 2) /\
+     read_loc (heap st1) (arr_loc a 0) = RVal 1%N /\ read_loc (heap st1) (arr_loc a 2) = RVal 3%N /\
+     step_new st1 (SrcWrite 0 2 9%N) = Some st2 /\
+     read_loc (heap st2) (arr_loc a 0) = RVal 1%N /\ read_loc (heap st2) (arr_loc a 2) = RVal 9%N.
 Proof. vm_compute. eexists. eexists. eexists. repeat split; reflexivity. Qed.
 
 Example dataview_example :
